@@ -18,6 +18,13 @@ STD_FUNCS = {
 PASS_THROUGH_FUNCS = {'move', 'forward', 'addressof', '__addressof', 'launder', 'as_const'}
 
 
+def is_static_method(unit, d):
+    if d.get('storageClass') == 'static':
+        return True
+    first = unit.ix.byid.get(unit.first_of.get(d.get('id'), d.get('id')))
+    return bool(first is not None and first.get('storageClass') == 'static')
+
+
 class FuncLowerer:
     def __init__(self, unit, d):
         self.u = unit
@@ -34,7 +41,7 @@ class FuncLowerer:
         self.scope_exits = []     # stack of lists of exit-action strings (RAII)
         self.ret_is_ref = False
         self.is_method = d.get('kind') in ('CXXMethodDecl', 'CXXConstructorDecl', 'CXXDestructorDecl', 'CXXConversionDecl') \
-            and d.get('storageClass') != 'static'
+            and not is_static_method(unit, d)
         self.closure = None       # for lambda operator(): capture map id -> field name
 
     # ------------------------------------------------------------------ helpers
@@ -83,7 +90,7 @@ class FuncLowerer:
         ret = fty[1]
         params = []
         is_method = d.get('kind') in ('CXXMethodDecl', 'CXXConstructorDecl', 'CXXDestructorDecl', 'CXXConversionDecl') \
-            and d.get('storageClass') != 'static'
+            and not is_static_method(u, d)
         if is_method:
             cls = self.class_of_method(d)
             if cls is not None and cls.get('kind') in RECORD_KINDS:
@@ -774,6 +781,10 @@ class FuncLowerer:
         return '(' + self.expr(e['inner'][0]) + ')'
 
     def e_ConstantExpr(self, e):
+        if 'value' in e and re.match(r'^-?\d+$', str(e['value'])):
+            ty = self.u.type_of(e)
+            if ty[0] in ('b', 'enum'):
+                return '((%s)%s)' % (self.u.ctype(ty), e['value'])
         if e.get('inner'):
             return self.expr(e['inner'][0])
         return str(e['value'])
@@ -1399,6 +1410,7 @@ class FuncLowerer:
                 return self.outside_member_call(obj, is_arrow, name, args, e, objt)
             abort('member call %s on a record outside the babylon AST (%r)' % (name, objt), e)
         objp = self.expr(obj) if is_arrow else addr_of(self.expr(obj))
+        static_call = is_static_method(u, md)
         qn = u.qualname(md)
         if qn in u.cfg.drop_calls:
             return '((void)0)'
@@ -1412,13 +1424,15 @@ class FuncLowerer:
         ret = fty[1]
         if md.get('kind') == 'CXXConversionDecl':
             pass
+        if static_call:
+            return self.wrap_ref_result('((void)%s, %s(%s))' % (objp, cn, ', '.join(a)), ret)
         return self.wrap_ref_result('%s(%s)' % (cn, ', '.join([objp] + a)), ret)
 
     def outside_member_call(self, obj, is_arrow, name, args, e, objt):
         """method of an allow-listed record outside babylon: extern C function whose prototype is
         taken from the call site (argument and result types as clang resolved them)"""
         u = self.u
-        cn = sanitize(objt[1]) + '_' + sanitize(name)
+        cn = sanitize(u.alias(objt[1])) + '_' + sanitize(name)
         ret = u.type_of(e)
         if e.get('valueCategory') == 'lvalue':
             abort('outside method returning a reference', e)
@@ -1470,7 +1484,7 @@ class FuncLowerer:
             return '((void)0)'
         cn = self.callee_name(decl, e)
         fty = u.resolve(parse_type(u._decl_type_str(decl)))
-        if decl.get('kind') == 'CXXMethodDecl' and decl.get('storageClass') != 'static':
+        if decl.get('kind') == 'CXXMethodDecl' and not is_static_method(u, decl):
             objp = self.addr(args[0])
             a = self.call_args(decl, args[1:])
             call = '%s(%s)' % (cn, ', '.join([objp] + a))
